@@ -1,1 +1,85 @@
-//! R4 — reorder-op interpreter (filled in with C03).
+//! R4 — reorder-op interpreter. Executes a list of ReorderOps (from the public planner) on a cell array
+//! whose cells are (chunk id, byte index) | junk, with a memory store, and reports the first Copy /
+//! StoreInMem that reads a cell no longer holding the chunk it claims.
+#![allow(dead_code)]
+
+use bitar::{HashSum, ReorderOp};
+use std::collections::HashMap;
+
+pub type Cell = Option<(u32, u32)>; // (chunk id, byte index); None = junk / unknown
+
+pub struct Interp {
+    pub cells: Vec<Cell>,
+    pub mem: HashMap<Vec<u8>, (u32, bool)>, // id, filled from an intact location?
+    pub stale_stores: usize,
+    pub stores: usize,
+    pub copies: usize,
+    pub overlapping_copies: usize,
+}
+
+fn read_ok(cells: &[Cell], source: u64, size: usize, id: u32) -> bool {
+    let s = source as usize;
+    if s + size > cells.len() {
+        return false;
+    }
+    (0..size).all(|i| cells[s + i] == Some((id, i as u32)))
+}
+
+impl Interp {
+    pub fn new(cells: Vec<Cell>) -> Self {
+        Interp { cells, mem: HashMap::new(), stale_stores: 0, stores: 0, copies: 0, overlapping_copies: 0 }
+    }
+    /// `id_of`: hash bytes -> chunk id
+    pub fn run(&mut self, ops: &[ReorderOp], id_of: &HashMap<Vec<u8>, u32>) -> Result<(), String> {
+        for (n, op) in ops.iter().enumerate() {
+            match op {
+                ReorderOp::Copy { hash, size, source, dest } => {
+                    let id = *id_of.get(&key(hash)).ok_or_else(|| format!("op {}: Copy of a chunk unknown to the output index", n))?;
+                    match self.mem.remove(&key(hash)) {
+                        Some((_, true)) => {}
+                        Some((_, false)) => {
+                            return Err(format!("plan: op {} writes chunk {} from a memory buffer that was filled from a location no longer holding the chunk", n, id));
+                        }
+                        None => {
+                            if !read_ok(&self.cells, *source, *size, id) {
+                                return Err(format!("plan: op {} copies chunk {} ({} bytes) from offset {} but that location no longer holds the chunk (destroyed before it was copied or buffered)", n, id, size, source));
+                            }
+                        }
+                    }
+                    self.copies += 1;
+                    for d in dest {
+                        let d = *d as usize;
+                        if self.cells.len() < d + size {
+                            self.cells.resize(d + size, None);
+                        }
+                        if self.cells[d..d + size].iter().any(|c| matches!(c, Some((o, _)) if *o != id)) {
+                            self.overlapping_copies += 1;
+                        }
+                        for i in 0..*size {
+                            self.cells[d + i] = Some((id, i as u32));
+                        }
+                    }
+                }
+                ReorderOp::StoreInMem { hash, size, source } => {
+                    let id = *id_of.get(&key(hash)).ok_or_else(|| format!("op {}: StoreInMem of an unknown chunk", n))?;
+                    if !self.mem.contains_key(&key(hash)) {
+                        // A buffer filled from a stale location is only an error if a later Copy consumes it
+                        // (the planner may emit a StoreInMem for a chunk whose Copy has already been done; the
+                        // executor then buffers bytes nobody uses).
+                        let intact = read_ok(&self.cells, *source, *size, id);
+                        if !intact {
+                            self.stale_stores += 1;
+                        }
+                        self.mem.insert(key(hash), (id, intact));
+                        self.stores += 1;
+                    }
+                }
+            }
+        }
+        Ok(())
+    }
+}
+
+pub fn key(h: &HashSum) -> Vec<u8> {
+    h.slice().to_vec()
+}
